@@ -32,6 +32,16 @@ TEXT = {
         "note": _NOTE + "enumeration / path-back / transform laws are oracle + correspondence, not yet theorems (partial).",
         "technique": "Coq proof (path-set refinement via the generic set algorithm, path algebra) + model/implementation correspondence of walk listings, path application and transforms by vm_compute",
     },
+    "C08": {
+        "level": "cty/convert is modelled in Gallina as it is coded: conversion lookup by type pair with the safe/unsafe flag, the wrapper for marks / dynamic target / unknown / null, dynamicReplace, prepareUnknownResult, every collection and structural conversion with its run-time element unification, Convert with its identity shortcut (conversions are Gallina closures as they are Go closures). Theorems: identity on a value of the requested type, every handed-out conversion is the uniform wrapper, dynamic target returns the value, null and unknown inputs get a null / prepared unknown of the replaced target type without consulting the type-directed conversion, marks travel around, primitive safe implies unsafe. Every generated (value, target) pair and every lookup is run on the implementation and the model and compared value by value; conformance, idempotence, identity, round trip, admits-for-unknowns and safe-never-fails are evaluated on both sides.",
+        "note": _NOTE + "two known findings (number text, placeholder kept by empty/absent members); two fix: commits.",
+        "technique": "Coq proof over a closure-level Gallina model of cty/convert + model-side property evaluation and correspondence by vm_compute + implementation-side oracle",
+    },
+    "C09": {
+        "level": "Unification (unify and its seven helpers, sortTypes exactly as coded, compareTypes) is part of the same Gallina model as conversion (they are mutually recursive). Theorems: empty list, the all-dynamic fallback returns one conversion per input each yielding a value of the unified type, single primitives. Every generated type list is unified safely and unsafely by implementation and model (result type and which conversions are nil compared), every returned conversion is applied to generated values of its input type on both sides, and the clauses (unified type, absent iff equal, safe never fails, safe uses only safe conversions, unsafe at least safe, equal types) are evaluated by the oracle.",
+        "note": _NOTE + "the general theorem (every returned conversion yields the unified type) is not proved: evaluated per case.",
+        "technique": "Coq proof over a closure-level Gallina model of cty/convert unification + correspondence by vm_compute + implementation-side oracle applying the returned conversions",
+    },
     "C10": {
         "level": "Function.Call / returnTypeForValues are modelled with callbacks as arbitrary Gallina functions (succeed, fail, panic) and an explicit callback trace. Theorems for ALL specifications and ALL argument lists: the implementation runs only after the type callback accepted the same arguments and only with arguments meeting the declared contract (conformance, null, unknown, dynamic, marks at any depth); the only possible traces; an argument error names an offending argument; otherwise the call short-circuits to the marked unknown of the checked type; no Go panic escapes Call. Generated specs with spy callbacks are run on the implementation and traces compared with the model.",
         "note": _NOTE + "Go defer/recover ordering is modelled as coded (after two fix: commits).",
